@@ -32,16 +32,16 @@ def put (s : St κ ν) (wcap pcap qcap : Nat) (lt : κ → κ → Bool) (k : κ)
       | none => ({ s with w := (k, v) :: s.w }, .put)
       | some cand =>
         let w' := (k, v) :: s.w.dropLast
-        let admit : St κ ν × PutResult κ ν :=
+        let letIn : St κ ν × PutResult κ ν :=
           let (p', q', r) := SlruSpec.put s.p s.q pcap qcap cand.1 cand.2
           ({ w := w', p := p', q := q' }, r)
-        if s.q.length + s.p.length < qcap + pcap then admit               -- admitted freely while main has room
+        if s.q.length + s.p.length < qcap + pcap then letIn               -- admitted freely while main has room
         else
           match s.p.getLast? with
-          | none => admit
+          | none => letIn
           | some vic =>
             if lt cand.1 vic.1 then ({ s with w := w' }, .evicted cand.1 cand.2)   -- strictly lower: rejected
-            else admit                                                              -- otherwise it replaces the victim
+            else letIn                                                              -- otherwise it replaces the victim
 
 def get (s : St κ ν) (qcap : Nat) (k : κ) (w : Option ν) : St κ ν × Option ν :=
   match find k s.w with
